@@ -30,14 +30,19 @@ func (s *syncer) run#send(data map[string]*mvccpb.KeyValue)
   ensures sentCount == old(sentCount) + 1 && lastSent == ref(data)
 
 func (s *syncer) pull(key string, prefix bool) (result map[string]*mvccpb.KeyValue, err error)
-  trusted
   flag allocates
+  flag frame=unchecked
+  requires s != nil && s.cluster != nil
+  modifies gReadErr, gReadResp, gRead
+  ensures a-failed-read-is-never-content: err == nil ==> gRead && gReadErr == nil
+  ensures a-single-key-pull-holds-at-most-that-key: err == nil && !prefix ==> result != nil && len(result) <= 1
 
 func (s *syncer) run(key string, prefix bool, send func(data map[string]*mvccpb.KeyValue))
   flag frame=unchecked
   closure[1] ()
-    requires s != nil
-    modifies sentCount, lastSent, gPulled, gPullFailed
+    requires s != nil && s.cluster != nil
+    modifies sentCount, lastSent, gPulled, gPullFailed, gReadErr, gReadResp, gRead
+    ensures only-content-that-was-read-from-the-store-is-delivered: sentCount > old(sentCount) ==> gRead && gReadErr == nil
     ensures failed-pull-delivers-nothing: gPullFailed ==> sentCount == old(sentCount) && ref(data) == old(ref(data))
     ensures unchanged-content-delivers-nothing: let nd = newData in !gPullFailed && old(dataEq(data, nd)) ==> sentCount == old(sentCount) && ref(data) == old(ref(data))
     ensures changed-content-is-delivered-once-and-remembered: let nd = newData in !gPullFailed && !old(dataEq(data, nd)) ==> sentCount == old(sentCount) + 1 && lastSent == gPulled && ref(data) == gPulled
@@ -74,4 +79,50 @@ func (m *mutex) Lock#cancel()
   trusted
 func (m *mutex) Unlock#cancel()
   trusted
+
+// ---- C19: a pull is a real read of the store: a failed read is never reported as content ----
+ghost var gReadErr error     // what the etcd client's Get returned
+ghost var gReadResp int      // ... and its response object
+ghost var gRead bool         // the store was read at all
+
+func (c *cluster) getClient() (cl *clientv3.Client, err error)
+  trusted
+  flag allocates
+  ensures err == nil ==> cl != nil
+
+func (c *cluster) requestContext() (ctx context.Context, cancel context.CancelFunc)
+  trusted
+  flag allocates
+  pure
+  ensures ctx != nil
+
+func (c *cluster) GetRawPrefix#cancel()
+  trusted
+func (c *cluster) GetRaw#cancel()
+  trusted
+
+func (c *cluster) GetRaw(key string) (kv *mvccpb.KeyValue, err error)
+  flag allocates
+  flag frame=unchecked
+  requires c != nil
+  modifies gReadErr, gReadResp, gRead
+  ensures a-failed-read-is-an-error: err == nil ==> gRead && gReadErr == nil
+  ensures the-answer-is-the-first-key-value-of-the-response: err == nil ==> (let r = ptr(gReadResp, "*clientv3.GetResponse") in (len(r.Kvs) == 0 ? kv == nil : kv == r.Kvs[0]))
+  ghost at entry: gRead := false
+  ghost at call[1] Get: gRead := true
+  ghost at call[1] Get: gReadErr := err
+  ghost at call[1] Get: gReadResp := ref(resp)
+
+func (c *cluster) GetRawPrefix(prefix string) (kvs map[string]*mvccpb.KeyValue, err error)
+  flag allocates
+  flag frame=unchecked
+  requires c != nil
+  modifies gReadErr, gReadResp, gRead
+  ensures a-failed-read-is-an-error: err == nil ==> gRead && gReadErr == nil
+  ensures every-returned-entry-is-a-key-value-of-the-response: err == nil ==> (let r = ptr(gReadResp, "*clientv3.GetResponse") in (forall k string :: (k in kvs) ==> (exists j int :: 0 <= j && j < len(r.Kvs) && kvs[k] == r.Kvs[j])))
+  ghost at entry: gRead := false
+  ghost at call Get: gRead := true
+  ghost at call Get: gReadErr := err
+  ghost at call Get: gReadResp := ref(resp)
+  invariant[1] kvs != nil && fresh(kvs) && (forall k string :: (k in kvs) ==> (exists j int :: 0 <= j && j < idx$1 && kvs[k] == range$1[j]))
 @*/
